@@ -1,2 +1,166 @@
-/- placeholder: the C01 driver is not built yet -/
-def main : IO Unit := IO.println "C01: driver not built yet"
+/- C01 line-protocol driver: prints `model <TAB> spec` for each case line.
+
+   new ty=sv|ipv|stk cap=<n> kind=int|nt     four empty objects of that type
+   api_bits / api_assign ty=… cap=… kind=…    static facts (size-type width; assignability)
+   <op> [obj=k] [other=j] args…               one operation on object k (default 0)
+
+   Output of an operation: `<result>;<obj0>;<obj1>;<obj2>;<obj3>` with
+   `<obj> = n=<size> e=<empty> f=<full> d=[elements] fb=<front>/<back>`.  The spec column is `*`
+   while any object is in a valid-but-unspecified (moved-from) state. -/
+import Tetl.Proto
+import Tetl.C01.Model
+import Tetl.C01.Step
+import Tetl.C01.Spec
+namespace Tetl.C01.Driver
+open Tetl Tetl.Proto
+
+def fmtOut : Out → String
+  | .unit => "ok"
+  | .it n => s!"it={n}"
+  | .count n => s!"cnt={n}"
+  | .ptr none => "null"
+  | .ptr (some x) => s!"ptr={x}"
+  | .ref x => s!"ref={x}"
+  | .rels bs => "rel=" ++ String.join (bs.map fmtBool)
+
+/-- the observers of one object, through the model's own accessors -/
+def fmtObj (cap : Nat) (d : V) : String :=
+  let fb := match front d, back d with
+    | .ok a, .ok b => s!"{a}/{b}"
+    | _, _ => "-"
+  s!"n={d.length} e={fmtBool d.isEmpty} f={fmtBool (d.length == cap)} d={fmtNatList d} fb={fb}"
+
+def fmtSys (cap : Nat) (objs : List V) : String := ";".intercalate (objs.map (fmtObj cap))
+
+def fmtSpecSys (cap : Nat) (objs : List Spec.SObj) : Option String :=
+  (objs.mapM id).map (fun l => fmtSys cap l)
+
+structure St where
+  sys : Option (Sys × Spec.SSys) := none
+  poisoned : Bool := false   -- objects with an indeterminate size: nothing may be executed
+
+/-- the bytes the harness writes into the raw storage before a default-initialisation -/
+def POISON : Nat := 0xAAAAAAAAAAAAAAAA
+
+def parseInit (l : Line) : Option Init :=
+  match l.str? "init" with
+  | some "value" => some .value
+  | some "default" => some (.dflt POISON)
+  | none => some .value
+  | _ => none
+
+def parseTy (l : Line) : Option Ty :=
+  match l.str? "ty" with
+  | some "sv" => some .sv
+  | some "ipv" => some .ipv
+  | some "stk" => some .stk
+  | _ => none
+
+def parseKind (l : Line) : Option Kind :=
+  match l.str? "kind" with
+  | some "int" => some .triv
+  | some "nt" => some .nt
+  | _ => none
+
+def parseOp (l : Line) : Option Op :=
+  let x := l.nat? "x"
+  let pos := l.nat? "pos"
+  let n := l.nat? "n"
+  let xs := l.natList? "xs"
+  let j := l.nat? "other"
+  match l.op with
+  | "push" => x.map (Op.push 0)
+  | "push_rv" => x.map (Op.push 1)
+  | "emplace_back" => x.map (Op.push 2)
+  | "pop" => some .pop
+  | "insert" => do some (.insert1 0 (← pos) (← x))
+  | "insert_rv" => do some (.insert1 1 (← pos) (← x))
+  | "emplace" => do some (.insert1 2 (← pos) (← x))
+  | "insert_fill" => do some (.insertFill (← pos) (← n) (← x))
+  | "insert_range" => do some (.insertRange (← pos) (← xs))
+  | "move_insert" => do some (.moveInsert (← pos) (← xs))
+  | "erase" => pos.map Op.erase
+  | "erase_range" => do some (.eraseRange (← l.nat? "f") (← l.nat? "l"))
+  | "resize" => n.map Op.resize
+  | "resize_val" => do some (.resizeVal (← n) (← x))
+  | "assign_fill" => do some (.assignFill (← n) (← x))
+  | "assign_range" => xs.map Op.assignRange
+  | "clear" => some .clear
+  | "ctor_n" => n.map Op.ctorN
+  | "ctor_n_val" => do some (.ctorNVal (← n) (← x))
+  | "ctor_range" => xs.map Op.ctorRange
+  | "copy_ctor" => j.map Op.copyCtor
+  | "move_ctor" => j.map Op.moveCtor
+  | "copy_assign" => j.map Op.copyAssign
+  | "move_assign" => j.map Op.moveAssign
+  | "swap" => j.map Op.swap
+  | "swap_free" => j.map Op.swap
+  | "erase_val" => x.map Op.eraseVal
+  | "erase_if" => do some (.eraseIf (← l.nat? "m") (← l.nat? "r"))
+  | "cmp" => j.map Op.cmp
+  | "try_push" => x.map (Op.tryPush 0)
+  | "try_push_rv" => x.map (Op.tryPush 1)
+  | "try_emplace" => x.map (Op.tryPush 2)
+  | "unchecked_push" => x.map (Op.unchecked 0)
+  | "unchecked_push_rv" => x.map (Op.unchecked 1)
+  | "unchecked_emplace" => x.map (Op.unchecked 2)
+  | "dump" => some .dump
+  | _ => none
+
+/-- static facts of the type as the model sees them (after the repairs of branch fix-c01):
+    width of the stored size, copy and move assignability -/
+def apiModel (ty : Ty) (cap : Nat) : String :=
+  let _ := ty
+  s!"bits={smallestBits cap}"
+
+def apiAssignModel (ty : Ty) : String :=
+  let asg := match ty with | .ipv => "0" | _ => "1"
+  s!"copy_assign={asg} move_assign={asg}"
+
+/-- what the standard types offer; the width of the size field is an implementation detail -/
+def apiSpec (_ty : Ty) (_cap : Nat) : String := "copy_assign=1 move_assign=1"
+
+def step (st : St) (l : Line) : St × String :=
+  let bad := (st, "bad-op\tbad-op")
+  match l.op with
+  | "new" =>
+    match parseTy l, l.nat? "cap", parseKind l, parseInit l with
+    | some ty, some cap, some kind, some ini =>
+      let s := Sys.init ty cap kind
+      let sp := Spec.SSys.init cap
+      let specStr := "new;" ++ fmtSys cap s.objs
+      let n0 := initSize ty cap ini
+      if n0 = 0 then ({ sys := some (s, sp) }, "new;" ++ fmtSys cap s.objs ++ "\t" ++ specStr)
+      else
+        -- indeterminate size: the four objects report it; nothing else can be observed
+        let o := s!"n={n0} e=0 f={fmtBool (n0 == cap)} d=? fb=?"
+        ({ sys := some (s, sp), poisoned := true }, "new;" ++ ";".intercalate [o, o, o, o] ++ "\t" ++ specStr)
+    | _, _, _, _ => bad
+  | "api_bits" =>
+    match parseTy l, l.nat? "cap", parseKind l with
+    | some ty, some cap, some _ => (st, apiModel ty cap ++ "\t*")
+    | _, _, _ => bad
+  | "api_assign" =>
+    match parseTy l, l.nat? "cap", parseKind l with
+    | some ty, some cap, some _ => (st, apiAssignModel ty ++ "\t" ++ apiSpec ty cap)
+    | _, _, _ => bad
+  | _ =>
+    if st.poisoned then (st, "invalid\tinvalid") else
+    match st.sys, parseOp l with
+    | some (s, sp), some op =>
+      let k := (l.nat? "obj").getD 0
+      -- a line that violates a documented precondition executes nothing on any side
+      if !valid s k op then (st, "invalid\tinvalid") else
+      let r := Spec.step sp k op
+      let specStr := match r.2, fmtSpecSys sp.cap r.1.objs with
+        | some o, some str => fmtOut o ++ ";" ++ str
+        | _, _ => "*"
+      match C01.step s k op with
+      | .ok (s', o) =>
+        ({ sys := some (s', r.1) }, fmtOut o ++ ";" ++ fmtSys s.cap s'.objs ++ "\t" ++ specStr)
+      | .error e => ({ sys := some (s, r.1) }, "err:" ++ e.fmt ++ "\t" ++ specStr)
+    | _, _ => bad
+
+end Tetl.C01.Driver
+
+def main : IO Unit := Tetl.Proto.runDriver ({} : Tetl.C01.Driver.St) Tetl.C01.Driver.step
